@@ -11,7 +11,10 @@ use std::collections::HashMap;
 #[derive(Serialize, Deserialize)]
 pub struct RewriteData {
   pub fixed: String,
-  // maybe we should have fixed range
+  /// the range replaced by `fixed`.
+  /// It is wider than the diagnostic's range if the fix has expandStart/expandEnd.
+  #[serde(default)]
+  pub range: Option<Range>,
 }
 
 impl RewriteData {
@@ -24,9 +27,29 @@ impl RewriteData {
     rule: &RuleConfig<L>,
   ) -> Option<Self> {
     let fixer = rule.matcher.fixer.as_ref()?;
-    let edit = node_match.replace_by(fixer);
+    // use the same edit as CLI: the fixer decides the replaced range
+    let edit = node_match.make_edit(&rule.matcher, fixer);
+    let text = node_match.root().get_text();
+    let range = Range {
+      start: offset_to_position(text, edit.position),
+      end: offset_to_position(text, edit.position + edit.deleted_length),
+    };
     let rewrite = String::from_utf8(edit.inserted_text).ok()?;
-    Some(Self { fixed: rewrite })
+    Some(Self {
+      fixed: rewrite,
+      range: Some(range),
+    })
+  }
+}
+
+/// line and character column of a byte offset, consistent with `convert_node_to_range`
+fn offset_to_position(text: &str, offset: usize) -> Position {
+  let before = &text[..offset];
+  let line = before.matches('\n').count();
+  let character = before.rsplit('\n').next().map_or(0, |l| l.chars().count());
+  Position {
+    line: line as u32,
+    character: character as u32,
   }
 }
 
@@ -36,7 +59,8 @@ pub fn diagnostic_to_code_action(
 ) -> Option<CodeAction> {
   let rewrite_data = RewriteData::from_value(diagnostic.data?)?;
   let mut changes = HashMap::new();
-  let text_edit = TextEdit::new(diagnostic.range, rewrite_data.fixed);
+  let range = rewrite_data.range.unwrap_or(diagnostic.range);
+  let text_edit = TextEdit::new(range, rewrite_data.fixed);
   changes.insert(text_doc.uri.clone(), vec![text_edit]);
 
   let edit = WorkspaceEdit::new(changes);
